@@ -119,6 +119,83 @@ func TestC15(t *testing.T) {
 				restore()
 			}
 		}
+		e.rapidStage("histories", "stateful", e.cfg.N(600, 100000), func(rt *rapid.T) {
+			defer deterministicGC()() // collections happen only at history start and at GC steps
+			var run c15Runner
+			var hist []core.Case
+			hkey := uint64(14695981039346656037)
+			do := func(step core.Case) {
+				hist = append(hist, step)
+				hkey = core.HashInts(core.Hash([]byte(step.Kind), step.In)^hkey, step.Ints...)
+				r.BeginCase(&core.Case{Prop: "C15", Kind: "history", Steps: hist})
+				info, err := run.step(&hist[len(hist)-1])
+				r.Eval(hkey, info.nontrivial)
+				r.Label("step." + step.Kind)
+				if step.Kind != "GC" && step.Kind != "mutate" {
+					if info.ok {
+						r.Label("read.ok")
+					} else {
+						r.Label("read.fails")
+					}
+				}
+				if info.nontrivial && r.WantSample(hkey) {
+					r.Sample(map[string]interface{}{"history": describeSteps(hist), "kept_results": len(run.kept)})
+				}
+				if err != nil {
+					cc := &core.Case{Prop: "C15", Kind: "history", Steps: append([]core.Case(nil), hist...)}
+					failRapid(rt, r, cc, fmt.Errorf("step %d: %w", len(hist)-1, err))
+				}
+			}
+			rt.Repeat(map[string]func(*rapid.T){
+				"ReadValue":  func(rt *rapid.T) { do(core.Case{Kind: "ReadValue", In: c15Doc(rt, 0)}) },
+				"ReadValue2": func(rt *rapid.T) { do(core.Case{Kind: "ReadValue", In: c15Doc(rt, 0)}) },
+				"ReadObject": func(rt *rapid.T) { do(core.Case{Kind: "ReadObject", In: c15Doc(rt, '{')}) },
+				"ReadArray":  func(rt *rapid.T) { do(core.Case{Kind: "ReadArray", In: c15Doc(rt, '[')}) },
+				"variant": func(rt *rapid.T) {
+					// an earlier input of this history with one small edit (whatever the reader
+					// remembers about a document it has seen must not leak into a near-copy)
+					var prev []int
+					for i := range hist {
+						if len(hist[i].In) > 0 && len(hist[i].In) < 4096 {
+							prev = append(prev, i)
+						}
+					}
+					if len(prev) == 0 {
+						rt.Skip("no earlier input")
+					}
+					base := hist[prev[rapid.IntRange(0, len(prev)-1).Draw(rt, "which")]]
+					b := append([]byte(nil), base.In...)
+					if rapid.Bool().Draw(rt, "beforequote") {
+						var quotes []int
+						for i, c := range b {
+							if c == '"' {
+								quotes = append(quotes, i)
+							}
+						}
+						if len(quotes) > 0 {
+							at := quotes[rapid.IntRange(0, len(quotes)-1).Draw(rt, "quote")]
+							c := []byte{0x00, 0x00, 0x01, 0x1f, '\\', '"', 'x', 0x7f, 0xff, ' '}[rapid.IntRange(0, 9).Draw(rt, "byte")]
+							b = append(b[:at:at], append([]byte{c}, b[at:]...)...)
+						}
+					} else {
+						b = gen.Mutate(rt, b)
+					}
+					do(core.Case{Kind: base.Kind, In: b})
+				},
+				"GC": func(rt *rapid.T) {
+					if len(hist) == 0 || rapid.IntRange(0, 3).Draw(rt, "gc?") != 0 {
+						rt.Skip("no GC this time")
+					}
+					do(core.Case{Kind: "GC"})
+				},
+				"mutate": func(rt *rapid.T) {
+					if len(run.kept) == 0 {
+						rt.Skip("nothing to mutate")
+					}
+					do(core.Case{Kind: "mutate", Ints: []int64{int64(rapid.IntRange(0, len(run.kept)-1).Draw(rt, "which"))}})
+				},
+			})
+		})
 		// 0b. size ladders: containers whose sizes are chosen relative to a big one seen earlier
 		// on the same reader (a hundredth ... all of it), read one after the other through every
 		// entry point, or as siblings inside one document: what a reader keeps of a big container
@@ -203,83 +280,6 @@ func TestC15(t *testing.T) {
 					failRapid(rt, r, cc, fmt.Errorf("step %d: %w", len(hist)-1, err))
 				}
 			}
-		})
-		e.rapidStage("histories", "stateful", e.cfg.N(600, 100000), func(rt *rapid.T) {
-			defer deterministicGC()() // collections happen only at history start and at GC steps
-			var run c15Runner
-			var hist []core.Case
-			hkey := uint64(14695981039346656037)
-			do := func(step core.Case) {
-				hist = append(hist, step)
-				hkey = core.HashInts(core.Hash([]byte(step.Kind), step.In)^hkey, step.Ints...)
-				r.BeginCase(&core.Case{Prop: "C15", Kind: "history", Steps: hist})
-				info, err := run.step(&hist[len(hist)-1])
-				r.Eval(hkey, info.nontrivial)
-				r.Label("step." + step.Kind)
-				if step.Kind != "GC" && step.Kind != "mutate" {
-					if info.ok {
-						r.Label("read.ok")
-					} else {
-						r.Label("read.fails")
-					}
-				}
-				if info.nontrivial && r.WantSample(hkey) {
-					r.Sample(map[string]interface{}{"history": describeSteps(hist), "kept_results": len(run.kept)})
-				}
-				if err != nil {
-					cc := &core.Case{Prop: "C15", Kind: "history", Steps: append([]core.Case(nil), hist...)}
-					failRapid(rt, r, cc, fmt.Errorf("step %d: %w", len(hist)-1, err))
-				}
-			}
-			rt.Repeat(map[string]func(*rapid.T){
-				"ReadValue":  func(rt *rapid.T) { do(core.Case{Kind: "ReadValue", In: c15Doc(rt, 0)}) },
-				"ReadValue2": func(rt *rapid.T) { do(core.Case{Kind: "ReadValue", In: c15Doc(rt, 0)}) },
-				"ReadObject": func(rt *rapid.T) { do(core.Case{Kind: "ReadObject", In: c15Doc(rt, '{')}) },
-				"ReadArray":  func(rt *rapid.T) { do(core.Case{Kind: "ReadArray", In: c15Doc(rt, '[')}) },
-				"variant": func(rt *rapid.T) {
-					// an earlier input of this history with one small edit (whatever the reader
-					// remembers about a document it has seen must not leak into a near-copy)
-					var prev []int
-					for i := range hist {
-						if len(hist[i].In) > 0 && len(hist[i].In) < 4096 {
-							prev = append(prev, i)
-						}
-					}
-					if len(prev) == 0 {
-						rt.Skip("no earlier input")
-					}
-					base := hist[prev[rapid.IntRange(0, len(prev)-1).Draw(rt, "which")]]
-					b := append([]byte(nil), base.In...)
-					if rapid.Bool().Draw(rt, "beforequote") {
-						var quotes []int
-						for i, c := range b {
-							if c == '"' {
-								quotes = append(quotes, i)
-							}
-						}
-						if len(quotes) > 0 {
-							at := quotes[rapid.IntRange(0, len(quotes)-1).Draw(rt, "quote")]
-							c := []byte{0x00, 0x00, 0x01, 0x1f, '\\', '"', 'x', 0x7f, 0xff, ' '}[rapid.IntRange(0, 9).Draw(rt, "byte")]
-							b = append(b[:at:at], append([]byte{c}, b[at:]...)...)
-						}
-					} else {
-						b = gen.Mutate(rt, b)
-					}
-					do(core.Case{Kind: base.Kind, In: b})
-				},
-				"GC": func(rt *rapid.T) {
-					if len(hist) == 0 || rapid.IntRange(0, 3).Draw(rt, "gc?") != 0 {
-						rt.Skip("no GC this time")
-					}
-					do(core.Case{Kind: "GC"})
-				},
-				"mutate": func(rt *rapid.T) {
-					if len(run.kept) == 0 {
-						rt.Skip("nothing to mutate")
-					}
-					do(core.Case{Kind: "mutate", Ints: []int64{int64(rapid.IntRange(0, len(run.kept)-1).Draw(rt, "which"))}})
-				},
-			})
 		})
 	})
 }
